@@ -34,6 +34,8 @@ def run(ctx, fb, cfg):
     fdrules.check_ltefd(ctx, lib, R + "K7.ltefd")
     fdrules.check_posting(ctx, lib, R + "K3.posting")
     fdrules.check_restale(ctx, lib, R + "K2K3.re-examination")
+    fdrules.check_operand_plumbing(ctx, lib, R + "K3.operand-plumbing", only=("plusfd", "minusfd", "timesfd", "ltefd", "diseqfd", "ltfd"))
+    fdrules.check_dstore_keys(ctx, lib, R + "K3.domain-store-keys")
     fdrules.check_sorted_search(ctx, lib, R + "K2.sorted-search")
     fdrules.check_distinctfd(ctx, lib, R + "K6.distinctfd-table")
     fdrules.check_diseqfd(ctx, lib, R + "K6.diseqfd-table")
